@@ -1116,6 +1116,10 @@ func (e *Evaluator) evalPatternRules(patternRules []*Rule) error {
 }
 
 func (e *Evaluator) GetRootJson() (string, error) {
+	if e.root == nil {
+		// no input value was processed (empty input, or the program exited first)
+		return "", fmt.Errorf("there is no root value")
+	}
 	val, err := e.root.Value.ToGoValue()
 	if err != nil {
 		return "", err
